@@ -244,25 +244,28 @@ def nextSpawn (s : State) (t : Nat) (fails : Bool) : Option State :=
       else some { s with threads := (s.threads.set t .rhInG2) ++ [.wWantP .perm], threadCount := s.threadCount + 1 }
     | _ => none
 
-/-- the worker's critical section (pool_worker_loop lines 547–584) -/
-def relWorker (cfg : Cfg) (s : State) (t : Nat) (w : WKind) (reg to : Bool) (target : Option Nat) (deadline : Bool) :
-    Option State :=
+/-- the worker's critical section (pool_worker_loop lines 547–584), without the effect of
+    `available_wakeup.notify_one()` on the woken submitter -/
+def relWorkerBody (cfg : Cfg) (s : State) (t : Nat) (w : WKind) (reg to : Bool) (deadline : Bool) : State :=
   -- `records.available_workers += 1;` on entry to the outer loop
   let s1 : State := { s with pLock := none, available := if reg then s.available else s.available + 1 }
   let ret : Local := match w with | .perm => .rhWantG true | .aux => .endWantG
-  let s2 : State :=
-    -- `if wait_result.timed_out() && records.queue.is_empty()`  (before a7b63db: `if wait_result.timed_out()`)
-    if reg && to && (!cfg.fixed || s1.queue.isEmpty) then
-      { s1.setT t ret with available := s1.available - 1 }
-    else
-      match s1.queue with
-      | k :: q =>
-        { s1.setT t (.wRun w k) with queue := q, available := s1.available - 1,
-                                     tasks := setStatus s1.tasks k (.handed t) }
-      | [] =>
-        if s1.pShutting then { s1.setT t ret with stale := s1.stale + 1 }
-        else if w == .aux && deadline then { s1.setT t ret with available := s1.available - 1 }
-        else s1.setT t (.wWait w)
+  -- `if wait_result.timed_out() && records.queue.is_empty()`  (before a7b63db: `if wait_result.timed_out()`)
+  if reg && to && (!cfg.fixed || s1.queue.isEmpty) then
+    { s1.setT t ret with available := s1.available - 1 }
+  else
+    match s1.queue with
+    | k :: q =>
+      { s1.setT t (.wRun w k) with queue := q, available := s1.available - 1,
+                                   tasks := setStatus s1.tasks k (.handed t) }
+    | [] =>
+      if s1.pShutting then { s1.setT t ret with stale := s1.stale + 1 }
+      else if w == .aux && deadline then { s1.setT t ret with available := s1.available - 1 }
+      else s1.setT t (.wWait w)
+
+def relWorker (cfg : Cfg) (s : State) (t : Nat) (w : WKind) (reg to : Bool) (target : Option Nat) (deadline : Bool) :
+    Option State :=
+  let s2 := relWorkerBody cfg s t w reg to deadline
   -- `pool.available_wakeup.notify_one();` (issued right after the increment; the woken submitter
   -- cannot proceed before the mutex is released, so its position in the section is immaterial)
   if reg then (if target.isNone then some s2 else none)
